@@ -34,10 +34,18 @@ func c20live(all []c20stmt, i int) string {
 	if x.src < 0 {
 		return c20join(x.own)
 	}
-	if len(x.own) == 0 {
-		return c20live(all, x.src)
+	return c20sp(c20live(all, x.src), c20join(x.own))
+}
+
+// items of a statement are separated by one space; items that render nothing leave no trace
+func c20sp(a, b string) string {
+	if a == "" {
+		return b
 	}
-	return c20live(all, x.src) + " " + c20join(x.own)
+	if b == "" {
+		return a
+	}
+	return a + " " + b
 }
 
 // snapshot text: a clone as a copy of its source at clone time followed by its own tokens
@@ -46,20 +54,25 @@ func c20snap(all []c20stmt, i int) string {
 	if x.src < 0 {
 		return c20join(x.own)
 	}
-	if len(x.own) == 0 {
-		return x.snap
-	}
-	return x.snap + " " + c20join(x.own)
+	return c20sp(x.snap, c20join(x.own))
 }
 
 var c20tok = []string{"t0", "t1", "t2", "t3", "t4", "t5", "t6", "t7", "t8", "t9", "t10", "t11", "t12", "t13"}
 var c20step = []string{"s0", "s1", "s2", "s3", "s4", "s5"}
 
 func H_C20_clone() {
+	// quick: 5 steps on up to 3 statements; thorough: 5 steps on up to 4 statements (deeper nesting)
+	c20run(0, 5)
+}
+
+// the same histories starting from an original that renders nothing (empty, or Null())
+func H_C20_clone_of_empty() {
+	c20run(1+nondetChoice("origin", 2), 4)
+}
+
+func c20run(origin int, steps int) {
 	verifCapFork(true)
 	verifUnwind(40)
-	// quick: 5 steps on up to 3 statements; thorough: 5 steps on up to 4 statements (deeper nesting)
-	steps := 5
 	orig := &Statement{}
 	if nondetChoice("pregrown", 2) == 1 {
 		// spare capacity from the start: every append below happens in place
@@ -69,11 +82,19 @@ func H_C20_clone() {
 	newTok := func() string {
 		t := nondetString(c20tok[ntok])
 		ntok++
+		// tokens are non-empty texts (an empty identifier renders nothing and would blur the separators)
+		verifAssume(t != "")
 		return t
 	}
-	t := newTok()
-	orig.Id(t)
-	all := []c20stmt{{s: orig, src: -1, own: []string{t}}}
+	all := []c20stmt{{s: orig, src: -1}}
+	switch origin {
+	case 0:
+		t := newTok()
+		orig.Id(t)
+		all[0].own = []string{t}
+	case 2:
+		orig.Null()
+	}
 	for k := 0; k < steps; k++ {
 		op := nondetChoice("op_"+c20step[k], 3)
 		x := nondetChoice("on_"+c20step[k], len(all))
